@@ -150,6 +150,12 @@ fn check_inner(template: &str, st: &[(Regex, &'static str)]) -> Option<String> {
             if dst != format!("<{}", want) {
                 return Some(format!("append_expansion gives {:?}", dst));
             }
+            // the fourth entry point: the byte-vector form must write exactly the bytes of the string form (added after seeded/C12-18)
+            let mut vdst: Vec<u8> = vec![b'<'];
+            ex.write_expansion_vec(&mut vdst, template, &caps);
+            if vdst != format!("<{}", want).as_bytes() {
+                return Some(format!("write_expansion_vec gives {:?}, expansion() gives {:?}", String::from_utf8_lossy(&vdst), want));
+            }
             // escape round trip
             let esc = ex.escape(template);
             let back = ex.expansion(&esc, &caps);
